@@ -277,20 +277,21 @@ theorem intsOf_some (xs : List Num) (l : List Int) (h : intsOf xs = some l) : xs
   | cons x xs ih =>
     cases x with
     | flt a b => simp [intsOf] at h
+    | other => simp [intsOf] at h
     | int n =>
       simp only [intsOf] at h
       cases hr : intsOf xs with
       | none => simp [hr] at h
       | some l' => simp [hr] at h; subst h; simp [ih l' hr]
 
-theorem wantedColour_ints (r g b : Int) :
-    wantedColour (.tuple [.int r, .int g, .int b]) =
+theorem wantedColour_ints (k : SeqKind) (r g b : Int) :
+    wantedColour (.tuple k [.int r, .int g, .int b]) =
       if 0 ≤ r ∧ r ≤ 5 ∧ 0 ≤ g ∧ g ≤ 5 ∧ 0 ≤ b ∧ b ≤ 5 then some (.idx (16 + 36 * r + 6 * g + b).toNat)
       else none := by
   simp [wantedColour, intsOf]
 
-theorem wantedColour_tuple_none (xs : List Num) (h : ∀ r g b, xs ≠ [.int r, .int g, .int b]) :
-    wantedColour (.tuple xs) = none := by
+theorem wantedColour_tuple_none (k : SeqKind) (xs : List Num) (h : ∀ r g b, xs ≠ [.int r, .int g, .int b]) :
+    wantedColour (.tuple k xs) = none := by
   simp only [wantedColour]
   cases hi : intsOf xs with
   | none => rfl
@@ -300,27 +301,27 @@ theorem wantedColour_tuple_none (xs : List Num) (h : ∀ r g b, xs ≠ [.int r, 
     | [], _ | [_], _ | [_, _], _ | _ :: _ :: _ :: _ :: _, _ => rfl
     | [r, g, b], hx => exact absurd hx (h r g b)
 
-theorem seqElement_tuple (b : Bool) (xs : List Num) :
-    seqElement std b (.tuple xs) =
-      match wantedColour (.tuple xs) with
+theorem seqElement_tuple (b : Bool) (k : SeqKind) (xs : List Num) :
+    seqElement std b (.tuple k xs) =
+      match wantedColour (.tuple k xs) with
       | some col => .ok (elemOf b col)
       | none => .error .valueError := by
   match xs with
   | [] | [_] | [_, _] | _ :: _ :: _ :: _ :: _ =>
-    rw [wantedColour_tuple_none _ (by intro r g b h; simp at h)]; rfl
+    rw [wantedColour_tuple_none _ _ (by intro r g b h; simp at h)]; rfl
   | [.int r, .int g, .int b'] =>
     rw [wantedColour_ints]
-    simp only [seqElement, Num.neg, Num.gt5, decide_eq_true_eq]
+    simp only [seqElement]
     by_cases h : 0 ≤ r ∧ r ≤ 5 ∧ 0 ≤ g ∧ g ≤ 5 ∧ 0 ≤ b' ∧ b' ≤ 5
     · rw [if_pos h, if_neg (by omega), intElem_ok _ _ (by omega) (by omega)]
       have : (16 + r * 36 + g * 6 + b').toNat = (16 + 36 * r + 6 * g + b').toNat := by
         congr 1; omega
       simp [elemOf, this]
     · rw [if_neg h, if_pos (by omega)]
-  | [.flt _ _, _, _] | [.int _, .flt _ _, _] | [.int _, .int _, .flt _ _] =>
-    rw [wantedColour_tuple_none _ (by intro r g b h; simp at h)]
-    simp only [seqElement]
-    split <;> rfl
+  | [.flt _ _, _, _] | [.other, _, _] | [.int _, .flt _ _, _] | [.int _, .other, _]
+  | [.int _, .int _, .flt _ _] | [.int _, .int _, .other] =>
+    rw [wantedColour_tuple_none _ _ (by intro r g b h; simp at h)]
+    rfl
 
 theorem seqElement_spec (b : Bool) (c : ColorSpec) (hc : c ≠ .none) :
     seqElement std b c =
@@ -336,7 +337,7 @@ theorem seqElement_spec (b : Bool) (c : ColorSpec) (hc : c ≠ .none) :
     by_cases h : 0 ≤ n ∧ n ≤ 255
     · rw [if_pos h, intElem_ok _ _ h.1 h.2]; simp [elemOf]
     · rw [if_neg h]; exact intElem_err _ _ (by omega)
-  | tuple xs => exact seqElement_tuple b xs
+  | tuple k xs => exact seqElement_tuple b k xs
   | float _ _ => rfl
 
 theorem wantedColour_wf (c : ColorSpec) (col : Colour) (h : wantedColour c = some col) :
@@ -350,7 +351,7 @@ theorem wantedColour_wf (c : ColorSpec) (col : Colour) (h : wantedColour c = som
     · simp at h; subst h; right; simp [WFc]; omega
     · simp at h
   | float _ _ => simp [wantedColour] at h
-  | tuple xs =>
+  | tuple k xs =>
     right
     refine ⟨by simp, ?_⟩
     by_cases hx : ∃ r g b, xs = [.int r, .int g, .int b]
@@ -359,7 +360,7 @@ theorem wantedColour_wf (c : ColorSpec) (col : Colour) (h : wantedColour c = som
       split at h
       · simp at h; subst h; simp [WFc]; omega
       · simp at h
-    · rw [wantedColour_tuple_none xs (by intro r g b hh; exact hx ⟨r, g, b, hh⟩)] at h
+    · rw [wantedColour_tuple_none _ xs (by intro r g b hh; exact hx ⟨r, g, b, hh⟩)] at h
       cases h
   | str s =>
     right
@@ -399,8 +400,8 @@ theorem nameIndex_isSome (l : List (List Char)) (s : List Char) :
 theorem wantedColour_domain (c : ColorSpec) :
     (wantedColour c).isSome = true ↔
       c = .none ∨ (∃ s ∈ stdNames, c = .str s) ∨ (∃ n : Int, 0 ≤ n ∧ n ≤ 255 ∧ c = .int n) ∨
-      (∃ r g b : Int, (0 ≤ r ∧ r ≤ 5 ∧ 0 ≤ g ∧ g ≤ 5 ∧ 0 ≤ b ∧ b ≤ 5) ∧
-        c = .tuple [.int r, .int g, .int b]) ∨
+      (∃ k, ∃ r g b : Int, (0 ≤ r ∧ r ≤ 5 ∧ 0 ≤ g ∧ g ≤ 5 ∧ 0 ≤ b ∧ b ≤ 5) ∧
+        c = .tuple k [.int r, .int g, .int b]) ∨
       (∃ ds n, parseDec ds = some n ∧ n ≤ 23 ∧ c = .str ('g' :: ds)) := by
   cases c with
   | none => simp [wantedColour]
@@ -411,30 +412,30 @@ theorem wantedColour_domain (c : ColorSpec) :
     · simp [h]
     · simp [h]
   | float _ _ => simp [wantedColour]
-  | tuple xs =>
+  | tuple k xs =>
     by_cases hx : ∃ r g b, xs = [.int r, .int g, .int b]
     · obtain ⟨r, g, b, rfl⟩ := hx
       rw [wantedColour_ints]
       by_cases h : 0 ≤ r ∧ r ≤ 5 ∧ 0 ≤ g ∧ g ≤ 5 ∧ 0 ≤ b ∧ b ≤ 5
       · simp only [if_pos h, Option.isSome_some, true_iff]
-        exact Or.inr (Or.inr (Or.inr (Or.inl ⟨r, g, b, h, rfl⟩)))
+        exact Or.inr (Or.inr (Or.inr (Or.inl ⟨k, r, g, b, h, rfl⟩)))
       · simp only [if_neg h, Option.isSome_none, Bool.false_eq_true, false_iff]
-        rintro (h' | ⟨_, _, h'⟩ | ⟨_, _, _, h'⟩ | ⟨r', g', b', h', he⟩ | ⟨_, _, _, _, h'⟩)
+        rintro (h' | ⟨_, _, h'⟩ | ⟨_, _, _, h'⟩ | ⟨k', r', g', b', h', he⟩ | ⟨_, _, _, _, h'⟩)
         · cases h'
         · cases h'
         · cases h'
         · simp at he
-          obtain ⟨rfl, rfl, rfl⟩ := he
+          obtain ⟨_, rfl, rfl, rfl⟩ := he
           exact h h'
         · cases h'
-    · rw [wantedColour_tuple_none xs (by intro r g b hh; exact hx ⟨r, g, b, hh⟩)]
+    · rw [wantedColour_tuple_none _ xs (by intro r g b hh; exact hx ⟨r, g, b, hh⟩)]
       simp only [Option.isSome_none, Bool.false_eq_true, false_iff]
-      rintro (h' | ⟨_, _, h'⟩ | ⟨_, _, _, h'⟩ | ⟨r', g', b', _, he⟩ | ⟨_, _, _, _, h'⟩)
+      rintro (h' | ⟨_, _, h'⟩ | ⟨_, _, _, h'⟩ | ⟨k', r', g', b', _, he⟩ | ⟨_, _, _, _, h'⟩)
       · cases h'
       · cases h'
       · cases h'
       · simp at he
-        exact hx ⟨r', g', b', he⟩
+        exact hx ⟨r', g', b', he.2⟩
       · cases h'
   | str s =>
     simp only [wantedColour]
